@@ -3,6 +3,8 @@ package main
 import (
 	"fmt"
 	"go/token"
+	"go/types"
+	"sort"
 	"strings"
 
 	"golang.org/x/tools/go/ssa"
@@ -205,4 +207,147 @@ func c05HostArrayPrivate(c *Ctx) {
 	if n < 2 {
 		c.Unresolved("C05.R3", "stores to hostSet.allHosts")
 	}
+}
+
+// c05SampleThenScan (R8): a sampling policy gives up only after a full scan.
+// "Power of k choices" policies (least-request, least-connection, peak-EWMA) look at `choice` random hosts. With one
+// healthy host among many, all samples are usually unhealthy; the property then still demands that healthy host, so a
+// sample that found nothing must be followed by something that looks at every host (a full-scan helper or another
+// balancer's ChooseHost). Clause: no function returns a value that may be the empty result of a sampling loop - a loop
+// bounded by the `choice` field - unless that value is known non-nil on the edge it is returned by; results of
+// sampling helpers are followed through calls and phis.
+func c05SampleThenScan(c *Ctx) {
+	pkg := "pkg/upstream/cluster"
+	isHost := func(t types.Type) bool { return strings.HasSuffix(t.String(), "types.Host") }
+	// sampling loops: header compares the induction variable with something derived from field `choice`
+	fromChoice := func(v ssa.Value) bool {
+		for i := 0; i < 4; i++ {
+			switch x := v.(type) {
+			case *ssa.Convert:
+				v = x.X
+				continue
+			case *ssa.ChangeType:
+				v = x.X
+				continue
+			}
+			break
+		}
+		_, f, _, ok := loadedField(v)
+		return ok && f == "choice"
+	}
+	samplingBody := func(fn *ssa.Function) map[*ssa.BasicBlock]bool {
+		for h, body := range naturalLoops(fn) {
+			if ifi, ok := h.Instrs[len(h.Instrs)-1].(*ssa.If); ok {
+				if bo, isB := ifi.Cond.(*ssa.BinOp); isB && bo.Op == token.LSS && fromChoice(bo.Y) {
+					return body
+				}
+			}
+		}
+		return nil
+	}
+	sampling := map[*ssa.Function]bool{}
+	var fns []*ssa.Function
+	for _, fn := range c.PkgFuncs(pkg) {
+		if fn.Signature.Results().Len() == 1 && isHost(fn.Signature.Results().At(0).Type()) && fn.Parent() == nil {
+			fns = append(fns, fn)
+		}
+	}
+	// nonNilOn: v is known non-nil when control is in block b (dominating guard), or arrives over the edge pred->succ
+	nonNilAt := func(v ssa.Value, b *ssa.BasicBlock) bool {
+		for _, g := range guardsAt(b) {
+			if bo, ok := g.Cond.(*ssa.BinOp); ok && isNilConst(bo.Y) && bo.X == v {
+				if (bo.Op == token.NEQ && g.True) || (bo.Op == token.EQL && !g.True) {
+					return true
+				}
+			}
+		}
+		return false
+	}
+	nonNilEdge := func(v ssa.Value, pred, succ *ssa.BasicBlock) bool {
+		if nonNilAt(v, pred) {
+			return true
+		}
+		if ifi, ok := pred.Instrs[len(pred.Instrs)-1].(*ssa.If); ok {
+			if bo, isB := ifi.Cond.(*ssa.BinOp); isB && isNilConst(bo.Y) && bo.X == v {
+				taken := pred.Succs[0] == succ
+				if (bo.Op == token.NEQ && taken) || (bo.Op == token.EQL && !taken) {
+					return true
+				}
+			}
+		}
+		return false
+	}
+	// may v (evaluated in block b) be the empty result of a sample?
+	var mayBeEmptySample func(fn *ssa.Function, v ssa.Value, b *ssa.BasicBlock, seen map[ssa.Value]bool) (bool, string)
+	mayBeEmptySample = func(fn *ssa.Function, v ssa.Value, b *ssa.BasicBlock, seen map[ssa.Value]bool) (bool, string) {
+		if seen[v] {
+			return false, ""
+		}
+		seen[v] = true
+		if nonNilAt(v, b) {
+			return false, ""
+		}
+		switch x := v.(type) {
+		case *ssa.Call:
+			if cal := x.Common().StaticCallee(); cal != nil && sampling[cal] {
+				return true, "the result of " + cal.Name() + "() (a sample of `choice` hosts)"
+			}
+		case *ssa.Phi:
+			body := samplingBody(fn)
+			if body != nil && body[x.Block()] {
+				return true, "the candidate of the sampling loop"
+			}
+			for i, e := range x.Edges {
+				pred := x.Block().Preds[i]
+				if nonNilEdge(e, pred, x.Block()) {
+					continue
+				}
+				if bad, why := mayBeEmptySample(fn, e, pred, seen); bad {
+					return true, why
+				}
+			}
+		}
+		return false, ""
+	}
+	// fixed point for "sampling" functions: a function is sampling if one of its returns may be an empty sample
+	for changed := true; changed; {
+		changed = false
+		for _, fn := range fns {
+			if sampling[fn] {
+				continue
+			}
+			for _, rs := range returnSites(fn, 0) {
+				if bad, _ := mayBeEmptySample(fn, rs.val, rs.at.Block(), map[ssa.Value]bool{}); bad {
+					sampling[fn] = true
+					changed = true
+				}
+			}
+		}
+	}
+	// Obligation: the balancers' choosers (what EdfLoadBalancer / ChooseHost hand out) are not sampling functions.
+	// Helpers whose only job is to sample (called by a function that falls back) may be.
+	n := 0
+	for _, fn := range fns {
+		name := fn.Name()
+		if !(name == "ChooseHost" || strings.HasPrefix(name, "unweightChoose") || strings.HasPrefix(name, "unweightedChoose")) {
+			continue
+		}
+		n++
+		why := ""
+		for _, rs := range returnSites(fn, 0) {
+			if bad, w := mayBeEmptySample(fn, rs.val, rs.at.Block(), map[ssa.Value]bool{}); bad {
+				why = w + " is returned at " + shortPos(c, nearestPos(rs.at))
+			}
+		}
+		c.Check("C05.R8", funcKey(fn)+":sample-then-scan", fn.Pos(), why == "", "never returns the empty result of a sample: a full scan or another balancer is consulted first", fn.Name()+" can give up after looking at `choice` random hosts only ("+why+" without being known non-nil): with one healthy host among many unhealthy ones it returns no host although a healthy host exists")
+	}
+	if n < 5 {
+		c.Unresolved("C05.R8", fmt.Sprintf("balancer choosers in %s (found %d)", pkg, n))
+	}
+	var names []string
+	for f := range sampling {
+		names = append(names, f.Name())
+	}
+	sort.Strings(names)
+	c.Extra["sampling_functions"] = strings.Join(names, ",")
 }
